@@ -23,6 +23,10 @@ FIXTURES = [
     ("C12", "C12-B-one-sided-pairing-memo"),   # B9: matcher state is keyed by pairs
     ("C13", "C13-B-actual-rule-scan-filtered-by-raw-start"),  # K4: no raw-vs-representative shortcut
     ("C09", "C09-B-quotient-mutates-parent-terms"),  # V11: provider results are not written to
+    ("C17", "C17-B-working-is-a-set"),         # R6: no label is taken out of a set by position
+    ("C17", "C17-B-max-time-truthiness"),      # R7: optional limits are compared with None
+    ("C18", "C18-B-verification-rule-fixed-children"),  # J3b: re-application passes only the saved class
+    ("C13", "C13-B-eq-path-skipped-for-ancestors"),     # B12: path checked on every visit
 ]
 
 
